@@ -33,6 +33,7 @@ type Rec struct {
 	ID     string // message ID (put result / delivered message)
 	IDSet  bool
 	Err    error
+	CtxErr error  // shutret: Err() of the Shutdown call's context when the call returned
 	Replay bool   // send/flush made during a Replay call
 	Point  string // hook point
 	Actor  string
@@ -494,12 +495,20 @@ func runScenarioMode(t *testing.T, sc Scenario, freeRun bool) (ex execution) {
 		var shutCancels []context.CancelFunc
 		for k, sh := range sc.Shutdowns {
 			k, sh := k, sh
-			ctx, cancel := context.WithCancel(context.Background())
+			var ctx context.Context
+			var cancel context.CancelFunc
+			if strings.Contains(sh.Ctx, "cause") {
+				// a context that carries a cancellation cause: Err() is still context.Canceled
+				c, cc := context.WithCancelCause(context.Background())
+				ctx, cancel = c, func() { cc(errShutCause) }
+			} else {
+				ctx, cancel = context.WithCancel(context.Background())
+			}
 			shutCancels = append(shutCancels, cancel)
 			name := fmt.Sprintf("shut%d", k)
 			w.reg(ctx, name)
 			actions = append(actions, action{"start " + name, func() {
-				if sh.Ctx == "expired" {
+				if sh.Ctx == "expired" || sh.Ctx == "expired-cause" {
 					cancel()
 				}
 				begin(name)
@@ -507,10 +516,10 @@ func runScenarioMode(t *testing.T, sc Scenario, freeRun bool) (ex execution) {
 					defer end(name)
 					w.add(Rec{K: "shutcall", Shut: k})
 					err := j.Shutdown(ctx)
-					w.add(Rec{K: "shutret", Shut: k, Err: err})
+					w.add(Rec{K: "shutret", Shut: k, Err: err, CtxErr: ctx.Err()})
 				}()
 			}})
-			if sh.Ctx == "cancel-later" {
+			if sh.Ctx == "cancel-later" || sh.Ctx == "cause-later" {
 				actions = append(actions, action{"cancel ctx of " + name, func() { cancel() }})
 			}
 		}
@@ -694,6 +703,8 @@ func fmtLog(l []Rec) string {
 	}
 	return b.String()
 }
+
+var errShutCause = errors.New("harness: the cause the Shutdown context was cancelled with")
 
 // aliasBacking is one array that every topic list which is a prefix of widePool is a view of:
 // callers commonly publish with slices of one array, so consecutive messages may carry
